@@ -57,7 +57,7 @@ fn draw_children(
                     // If a `clipPath` child also has a `clip-path`
                     // then we should render this child on a new canvas,
                     // clip it, and only then draw it to the `clipPath`.
-                    clip_group(group, clip, transform, pixmap);
+                    clip_group(group, clip, mode, transform, pixmap);
                 } else {
                     draw_children(group, mode, transform, pixmap);
                 }
@@ -70,6 +70,7 @@ fn draw_children(
 fn clip_group(
     children: &usvg::Group,
     clip: &usvg::ClipPath,
+    mode: tiny_skia::BlendMode,
     transform: tiny_skia::Transform,
     pixmap: &mut tiny_skia::PixmapMut,
 ) -> Option<()> {
@@ -84,7 +85,13 @@ fn clip_group(
     apply(clip, transform, &mut clip_pixmap);
 
     let mut paint = tiny_skia::PixmapPaint::default();
-    paint.blend_mode = tiny_skia::BlendMode::DestinationOut;
+    // The clip buffer starts opaque and children clear it. But the buffer of a clipped child
+    // starts transparent and its children, clipped ones included, are added to it.
+    paint.blend_mode = if mode == tiny_skia::BlendMode::Clear {
+        tiny_skia::BlendMode::DestinationOut
+    } else {
+        tiny_skia::BlendMode::SourceOver
+    };
     pixmap.draw_pixmap(
         0,
         0,
